@@ -42,6 +42,10 @@ def bases_containers(rng, tier):
         cand = [strip_sched(c) for c in gen(rng.fork("b" + name), "quick", 1)]
         cand = [c for c in cand if 6 <= len(c) <= (45 if tier == "quick" else 90)]
         out += cand[:nb]
+    # every pool size across its cache size (size+2 objects, all freed, allocated again, exit)
+    for k in c12.POOL_SIZES:
+        for order in ("lifo", "fifo"):
+            out.append(c12.mp_cross(k, rounds=1, order=order))
     # one sequence that exercises everything the property names as "cannot fail" with live data
     out.append(["ea_init 4 8 1", "ea_append 40 8 2", "ea_shrink 38 8", "ea_shrink 2 8", "ea_dump", "ea_free",
                 "eq_init 8", "eq_add 1", "eq_add 2", "eq_add 3", "eq_add 4", "eq_add 5", "eq_del", "eq_del", "eq_del",
@@ -358,7 +362,8 @@ def make_components(ctx):
     cont = vlib.Component(
         "containers", "h_ds.c", [], ["ds"], None, nontrivial=lambda c: c[0].startswith("fail"),
         rule="containers: base sequences over elastic array / queue / seqptrmap / pool (C12's generators without their own "
-             "schedules, 6..90 ops) x {no fault, failat k, failfrom k : k = 1..N allocations of the base}; "
+             "schedules, 6..90 ops; pools of cache size 1, 2, 3, 4 each driven across its cache size) x {no fault, failat k, "
+             "failfrom k : k = 1..N allocations of the base}; "
              "non-trivial = a fault is scheduled; distinct by hash of the op list",
         monitor_args=["dsmon"], ldflags=[WRAP], bb_ok=True, bb_srcs=c12.BB_SRCS, bb_fresh=True, **common)
     ev = vlib.Component(
